@@ -461,6 +461,9 @@ def oracle(sc, obs):
         reads, t = reads_of(k)
         if not any(r["kind"] == "DNSText" and r["name"].lower() == name.lower() and not expired(r, t) and r["text"] == fin["text"] for r in reads):
             out.append(("C18:stale-txt", "TXT %s was assigned in block %d (+%d ms), which read no unexpired TXT record of the instance carrying it" % (fin["text"], k, t - obs["t0"])))
+    if obs["result"] is True and fin["server_key"] is None:
+        out.append(("C18:success-without-host", "the lookup returned True with host %r and port %r: no SRV record was ever taken, so the address(es) %s are not "
+                    "addresses of the service's host" % (fin["server"], fin["port"], fin["v4"] + fin["v6"])))
     for a in fin["v4"] + fin["v6"]:
         # the address entered the object, or stayed while the host changed, in block k
         k = assigned_in(lambda x, y: a in y["v4"] + y["v6"] and (a not in x["v4"] + x["v6"] or x["server_key"] != y["server_key"]))
@@ -655,8 +658,14 @@ def gen_scenario(rng, idx):
                 ev["known"] = [srv(host)]
         else:
             recs = []
-            for kind in rng.sample(["srv", "txt", "a", "aaaa", "a2", "osrv", "oa", "bye", "xsrv", "xtxt"], rng.randint(1, 4)):
-                if kind == "srv":
+            for kind in rng.sample(["srv", "txt", "a", "aaaa", "a2", "osrv", "oa", "bye", "xsrv", "xtxt", "na", "na"], rng.randint(1, 4)):
+                if kind == "na":
+                    # an address record OWNED BY THE INSTANCE NAME (a third party answering the lookup's own `A <server or name>` question, or a
+                    # peer registered without `server=` whose address travels ahead of its SRV): while no SRV is known the lookup has no host,
+                    # and this is not an address of the service's host
+                    recs.append({"k": rng.choice(["a", "a", "aaaa"]), "name": rng.choice(NAME_SPELLINGS), "ttl": ttl(), "addr": None, "unique": rng.random() < 0.8})
+                    recs[-1]["addr"] = rng.choice(V6 if recs[-1]["k"] == "aaaa" else V4)
+                elif kind == "srv":
                     recs.append(srv(host, rng.choice([0, 0, 1])))
                 elif kind == "osrv":
                     recs.append(srv(other, 1))
